@@ -113,12 +113,21 @@ def desc_lines(desc, method_obj=None):
             a, b_ = con['a'][r], con['b'][r]
             if rel == 'ge':
                 rel, a, b_ = 'le', b_, a
+            cc_ = con['c'][r] if rel == 'two' else None
+            if rel == 'two':
+                # infinite entries of a bound vector: that side of the row does not exist
+                if a[0] == 'ninf' and cc_[0] == 'pinf':
+                    continue
+                if a[0] == 'ninf':
+                    rel, a, b_ = 'le', b_, cc_
+                elif cc_[0] == 'pinf':
+                    rel = 'le'
             L.append("con %d %s %s %d %d %s" % (cid, rel, con['grid'], 1 if con.get('first', True) else 0,
                                                  1 if con.get('last', True) else 0, R(Fraction(float(s)))))
             L.append("a " + E.to_tokens(a))
             L.append("b " + E.to_tokens(b_))
             if rel == 'two':
-                L.append("cc " + E.to_tokens(con['c'][r]))
+                L.append("cc " + E.to_tokens(cc_))
             for (e, o) in con.get('offs', []):
                 L.append("off %d %s" % (int(o), E.to_tokens(e)))
     qi = nq
